@@ -96,6 +96,10 @@ func (g *Gen) FnLine(pool []string, verb, db, coll string, carrier string) *FnCa
 		if g.chance(0.6) {
 			f.Set("$or", ArrN(ObjN(n[2], l("filter")), ObjN(n[0]+"."+n[3], ObjN("$in", ArrN(l("filter"))))))
 		}
+		if g.chance(0.35) {
+			// $expr comparing fields: "$f" and its other spellings "$$ROOT.f" / "$$CURRENT.f"
+			f.Set("$expr", ObjN(g.pick("$eq", "$gt", "$ne"), ArrN(StrN(g.pick("$$ROOT.", "$$CURRENT.", "$")+n[0]).With(&Tag{Role: Ref}), StrN(g.pick("$$ROOT.", "$")+n[1]).With(&Tag{Role: Ref}))))
+		}
 		cmd = ObjN("find", collN(coll), "filter", f, "sort", ObjN(n[0], FreeI(1), n[1], FreeI(-1)), "limit", KeepI(10))
 		clauses = [][]string{{n[0], n[1]}}
 		if g.chance(0.4) {
@@ -122,6 +126,7 @@ func (g *Gen) FnLine(pool []string, verb, db, coll string, carrier string) *FnCa
 			// the same fields reached through a variable: "$$ROOT.f" / "$$CURRENT.f" are other spellings of "$f",
 			// "$$this.f" is the usual way to name a member inside $map / $filter — as a direct value and inside arrays
 			vref := func(v, name string) *Node { return StrN("$$" + v + "." + name).With(&Tag{Role: Ref}) }
+			p.Vals = append(p.Vals, ObjN("$match", ObjN("$expr", ObjN("$lt", ArrN(vref("ROOT", n[0]), vref("CURRENT", n[1]))))))
 			p.Vals = append(p.Vals, ObjN("$addFields", ObjN("outv", vref("ROOT", n[0]), "outw", ObjN("$concat", ArrN(vref("CURRENT", n[1]), l("expr"))),
 				"outm", ObjN("$map", ObjN("input", ref(n[3]), "as", FreeS("it"), "in", ObjN("$toUpper", vref("it", n[2])))))),
 				ObjN("$group", ObjN("_id", vref("ROOT", n[1]), "cnt", ObjN("$sum", vref("CURRENT", n[0])))))
